@@ -244,6 +244,7 @@ class C11(Check):
         ctx['client_threads'] = [n for n in ('_rxthread', '_txthread', '_connthread') if getattr(cl, n, None) is not None
                                  and getattr(cl, n).is_alive()]
         ctx['t_end'] = sim.vnow()
+        ctx['connect_log'] = list(world.net.connect_log)
 
     MAX_VIRTUAL = 3000
 
@@ -477,6 +478,17 @@ class C11(Check):
                     mode = 'after-reconnect' if len(pr.conns) > 1 else 'single-connection'
                     res.append(Violation('C11.caller-raised', f'{etype}|{mode}',
                                          f'caller {r["task"]} uid {r["uid"]} ({r["op"]}): {result[1:3]}'))
+        # a shutdown by the user stays a shutdown: without any fault of the peer, the client's reconnect thread never
+        # opens a connection once disconnect() was called (a caller's own request may - it connects by itself)
+        if not any_fault and user_dis:
+            t_dis = min(d['t0'] for d in user_dis)
+            later = [(t, who) for (t, _port, _res, who) in ctx.get('connect_log', ()) if t >= t_dis]
+            by_reconnect = [x for x in later if '_reconnect' in x[1]]
+            by_caller = [x for x in later if '_reconnect' not in x[1]]
+            if by_reconnect and not by_caller:
+                res.append(Violation('C11.reconnect-after-shutdown', 'reconnect-thread',
+                                     f'disconnect() was called at t={t_dis:.3f}; the peer never failed, no caller connected '
+                                     f'again, but the reconnect thread opened a connection at t={by_reconnect[0][0]:.3f}'))
         for d in user_dis:
             if d.get('result') is not None:
                 tb = [ln.strip() for ln in (d['result'][2] or '').splitlines() if ln.strip() and not ln.strip().startswith('^')]
